@@ -100,10 +100,10 @@ def depth1():
 # representative leaves for depth >= 2:  (abstract id, template); {kw} is replaced by an alias
 # ------------------------------------------------------------------------------------------------
 _REPS2 = [
-    ("protein", "{protein}"), ("water", "{water}"), ("backbone", "{backbone}"),
+    ("protein", "{protein}"), ("water", "{water}"),
     ("name=CA", "{name} CA"), ("resname=ALA'", "{resname} 'ALA'"),
     ("name in NCO", "{name} N C O"),
-    ("resid 1-3", "{resid} 1 to 3"), ("mass 5.5-20", "{mass} 5.5 to 20"),
+    ("resid 1-3", "{resid} 1 to 3"),
     ("mass>13", "{mass} > 13"), ("index<20", "{index} < 20"), ("residue>=3", "{residue} >= 3"),
     ("chainid<=1", "{chainid} <= 1"), ("resname==ALA", "{resname} == ALA"), ("type!=C", "{type} != C"),
     ("mass>13", "{mass} gt 13"), ("index<20", "{index} lt 20"), ("residue>=3", "{residue} ge 3"),
